@@ -16,7 +16,11 @@ CONSTANTS
   Defect = "none"
   AllowBadConfig = FALSE
   Emit = FALSE
+  Faults <- NoFaults
+  QS <- NoQ
+  Ops <- AllOps
+  Big = FALSE
 VIEW MCView
 INVARIANTS TypeOK PresentForHalfWindow
-PROPERTIES SlidingAnswers
+PROPERTIES SlidingAnswers AddNilMeansPresent
 CHECK_DEADLOCK FALSE
